@@ -80,9 +80,14 @@ def verify_one(cid, timeout_ms=10000):
                 d["model"] = model_inputs(eng, ct, ob)
             obs.append(d)
         mod, cls, fn = eng.find_function(ct)
+        sha = eng.index.source_hash(mod, fn)
+        for callee, how in sorted(eng.calls.get(cid, ())):       # inlined callees are part of the verified text
+            if how == "inline":
+                m2, c2, f2 = eng.find_function(C.CONTRACTS[callee])
+                sha += "+" + eng.index.source_hash(m2, f2)
         return {"cid": cid, "ok": True, "obligations": obs, "paths": res["paths"], "dead": res["dead"],
                 "symex_s": round(res["symex_s"], 3), "wall_s": round(time.time() - t0, 3),
-                "sha": eng.index.source_hash(mod, fn), "assumptions": sorted(eng.assumptions),
+                "sha": sha, "assumptions": sorted(eng.assumptions),
                 "bounded": sorted(eng.bounded_notes),
                 "calls": {k: sorted(v) for k, v in eng.calls.items()}}
     except Exception as e:
